@@ -92,6 +92,10 @@ impl<'a> Rd<'a> {
     fn flush_item_text(&mut self) {
         if self.path.last().map(|p| p.starts_with("item")).unwrap_or(false) {
             if self.buf.as_ref().map(|b| !b.trim().is_empty()).unwrap_or(false) || (self.buf.is_some() && self.inline_seen) {
+                // the text sitting directly in a tight item is the item's first paragraph
+                let h = self.cur_heading.last().cloned().flatten();
+                let ctx = self.ctx();
+                self.out.blocks.push((ctx, h, "para".to_string(), 0));
                 self.flush("para");
                 if let Some(s) = self.item_started.last_mut() {
                     *s = true;
@@ -140,6 +144,7 @@ pub fn read(text: &str, dir: &str) -> Reading {
     let mut depth_inline = 0usize;
     let mut holder = String::new();
     let mut heading_as_para = false;
+    let mut quote_counter = 0usize;
     let mut para_first_in_item = false;
     for (ev, range) in Parser::new_ext(text, options()).into_offset_iter() {
         match ev {
@@ -177,7 +182,8 @@ pub fn read(text: &str, dir: &str) -> Reading {
                     if let Some(s) = r.item_started.last_mut() {
                         *s = true;
                     }
-                    r.path.push("quote".into());
+                    quote_counter += 1;
+                    r.path.push(format!("quote{}", quote_counter));
                     r.cur_heading.push(None);
                 }
                 Tag::CodeBlock(k) => {
